@@ -35,6 +35,39 @@ pub mod proofs {
         kani::cover!(bin <= l && hop < l, "chunk yielded with frames remaining");
     }
 
+    /// a probe window function: gain == 1.5 + phase (not idempotent under repetition, unlike Rectangle)
+    pub struct Probe;
+    impl dasp_window::Window<f64> for Probe { type Output = f64; fn window(phase: f64) -> f64 { phase + 1.5 } }
+
+    // (Window::new / Window::next — the phases i/(n-1) — are verified by Verus in unit osc: Kani 0.68 / CBMC 6.11 evaluates the
+    //  f64 `%` operator to 0.0 for every operand, so a Kani harness cannot observe a wrapped phase)
+
+    /// chunk data path for concrete shapes and symbolic contents: chunk k holds frames k*h .. k*h+b-1, each scaled by the
+    /// window value (probe window: 1.5 + phase); exactly count(L, b, h) chunks
+    fn chunk_path<const L: usize>(bin: usize, hop: usize) {
+        let data: [[f64; 1]; L] = core::array::from_fn(|_| { let x: f64 = kani::any(); kani::assume(x.is_finite() && x.abs() <= 1.0); [x] });
+        let mut w: Windower<[f64; 1], Probe> = Windower::new(&data[..], bin, hop);
+        let want = count(L, bin, hop);
+        let mut k = 0usize;
+        while let Some(mut chunk) = w.next() {
+            assert!(k < want, "P: more chunks than floor((L-b)/h)+1");
+            let mut j = 0usize;
+            while j < bin {
+                let f = chunk.next();
+                assert!(f.is_some());
+                let g = (j as f64 / (bin as f64 - 1.0)) % 1.0 + 1.5;      // (under Kani `%` yields 0.0: g == 1.5)
+                assert!(f.unwrap()[0].to_bits() == (data[k * hop + j][0] * g).to_bits(), "P: frame k*h+j scaled by the window value of position j");
+                j += 1;
+            }
+            k += 1;
+        }
+        assert!(k == want, "P: fewer chunks than floor((L-b)/h)+1");
+    }
+    #[kani::proof] #[kani::unwind(8)] pub fn c20_chunk_path_l4_b3_h1() { chunk_path::<4>(3, 1) }
+    #[kani::proof] #[kani::unwind(8)] pub fn c20_chunk_path_l5_b5_h2() { chunk_path::<5>(5, 2) }
+    #[kani::proof] #[kani::unwind(8)] pub fn c20_chunk_path_l6_b2_h3() { chunk_path::<6>(2, 3) }
+    #[kani::proof] #[kani::unwind(8)] pub fn c20_chunk_path_l3_b4_h1() { chunk_path::<3>(4, 1) }
+
     // (the closed-form/recurrence identity and size_hint are proved by the Verus unit `window`: 64-bit symbolic
     //  division does not terminate in CBMC)
 
